@@ -87,8 +87,11 @@ def _get_all_middlewares(bound_routes):
     for broute in reversed(bound_routes):
         for mw in broute.middlewares:
             # use list and eq so mws don't have to be hashable
-            if mw not in all_mw:
-                all_mw.append(mw)
+            if any(mw is seen_mw for seen_mw in all_mw):
+                continue  # the same object, bound into several routes
+            if mw.unique and mw in all_mw:
+                continue  # a unique type wraps once, others every time
+            all_mw.append(mw)
 
     return all_mw
 
